@@ -17,7 +17,9 @@ import (
 	"os"
 	"path/filepath"
 	"sort"
+	"strconv"
 	"strings"
+	"time"
 )
 
 // Engine couples a generator of op lines with an executor of op lines against the real code.
@@ -179,8 +181,34 @@ func runExec(in, out string) {
 			x = e.NewExec()
 			execs[toks[0]] = x
 		}
-		fmt.Fprintln(w, safeExec(x, toks[1:]))
+		res, hung := execWithWatchdog(x, toks[1:])
+		fmt.Fprintln(w, res)
 		w.Flush() // a crash must not lose the outputs before it
+		if hung {
+			// the implementation did not return: the goroutine cannot be killed, so this process ends
+			// here; the remaining ops are reported as missing by ./check
+			fo.Sync()
+			os.Exit(3)
+		}
+	}
+}
+
+// execWithWatchdog runs one op; an implementation call that does not return within the op
+// time limit (VERIF_OP_TIMEOUT seconds, default 120) becomes the output token HANG.
+func execWithWatchdog(x Exec, args []string) (string, bool) {
+	limit := 120 * time.Second
+	if v := os.Getenv("VERIF_OP_TIMEOUT"); v != "" {
+		if n, err := strconv.Atoi(v); err == nil && n > 0 {
+			limit = time.Duration(n) * time.Second
+		}
+	}
+	done := make(chan string, 1)
+	go func() { done <- safeExec(x, args) }()
+	select {
+	case r := <-done:
+		return r, false
+	case <-time.After(limit):
+		return "HANG (no return within " + limit.String() + ")", true
 	}
 }
 
